@@ -240,6 +240,33 @@ pub fn run_op(
   tape: Tape,
   record_history: bool,
 ) -> (Report, Tape) {
+  run_op_with(
+    session,
+    world,
+    plan,
+    sem,
+    sched,
+    op,
+    tape,
+    record_history,
+    None,
+  )
+}
+
+/// Like `run_op`, with a caller-supplied module analyzer (e.g. a capturing
+/// one, for fast check) behind the simulated suspension wrapper.
+#[allow(clippy::too_many_arguments)]
+pub fn run_op_with(
+  session: &mut Session,
+  world: &Rc<World>,
+  plan: &Rc<FaultPlan>,
+  sem: &SemOpts,
+  sched: &SchedOpts,
+  op: Operation,
+  tape: Tape,
+  record_history: bool,
+  analyzer_override: Option<&dyn deno_graph::analysis::ModuleAnalyzer>,
+) -> (Report, Tape) {
   let sim = Sim::new(
     sched.policy(),
     sched.inline_exec,
@@ -277,7 +304,7 @@ pub fn run_op(
   let real_analyzer = deno_graph::ast::DefaultModuleAnalyzer;
   let analyzer = SimAnalyzer {
     sim: sim.clone(),
-    inner: &real_analyzer,
+    inner: analyzer_override.unwrap_or(&real_analyzer),
     suspend: sched.analyzer_suspend,
   };
   let resolver = world.resolver.clone().map(|cfg| SimResolver { cfg });
